@@ -16,7 +16,9 @@ Definition kvr_eqb (x y : bytes * bytes * N) : bool :=
 
 Definition resp_eqb (x y : resp) : bool :=
   match x, y with
-  | PErr, PErr | PPanic, PPanic => true
+  | PErr, PErr | PPanic, PPanic | PHang, PHang => true
+  | PCount h n, PCount h' n' => (h =? h') && (n =? n')
+  | PStream kvs e, PStream kvs' e' => list_eqb kvr_eqb kvs kvs' && Bool.eqb e e'
   | PCreate o h, PCreate o' h' => Bool.eqb o o' && (h =? h')
   | PUpdate o h kv, PUpdate o' h' kv' => Bool.eqb o o' && (h =? h') && opt_eqb kvrev_eqb kv kv'
   | PDelete o h kv, PDelete o' h' kv' => Bool.eqb o o' && (h =? h') && opt_eqb kvrev_eqb kv kv'
